@@ -100,6 +100,19 @@ package ordset
 //@   ensures! kept_after: forall k :: p < k && k < tree.size ==> tree.slots[k] == old(tree.slots[k - 1])
 //@   ensures! wf: wfTree(tree)
 
+// Set.split (functional part only, 'nosafety': the preconditions of treeNode.insert are assumed at its call -
+// wfTree there did not discharge within the solver budget): a REFUSED split (tree level full) changes
+// nothing - in particular it does not cut the full leaf - and a successful one keeps the lower part of the
+// leaf where it is, moves exactly the upper part, in order, to the new leaf, and links that leaf.
+//@ func (set *Set) split(leaf, key) (r)
+//@   nosafety
+//@   requires set != nil && leaf != nil && leaf.size == 128 && (set.tree == nil ==> set.leaf.size == 128)
+//@   modifies all
+//@   ghost l int = left
+//@   ensures! refused_changes_nothing: !r ==> leaf.size == old(leaf.size) && set.tree == old(set.tree) && (forall k :: 0 <= k && k < 128 ==> leaf.slots[k] == old(leaf.slots[k]))
+//@   ensures! refused_only_when_full: !r ==> old(set.tree) != nil && old(set.tree.size) >= 128
+//@   ensures! lower_part_stays: r ==> (l == 32 || l == 64 || l == 96) && leaf.size == l && (forall k :: 0 <= k && k < l ==> leaf.slots[k] == old(leaf.slots[k]))
+
 // Set.split and Set.Insert (routing to a leaf, dividing a full leaf) are NOT under
 // contract: the precondition wfTree at split's call of treeNode.insert did not
 // discharge within the solver budget (undecided, not refuted).
